@@ -42,8 +42,11 @@ def run(tier):
         scale = 2.0 ** rng.choice([-13, -13, -27, -34, -20])   # m^2/Hz per unit: ordinary, weak and very weak spectra (the selection must not depend on the level)
         E = np.array([[np.nan if c["nan"][j] else c["e"][j] * scale for j in range(nf)] for c in grp])
         octs = grp[0]["oct"]
-        a1 = np.array([[0.9 * math.cos(math.radians(45 * o)) for o in octs]] * B)
-        b1 = np.array([[0.9 * math.sin(math.radians(45 * o)) for o in octs]] * B)
+        # exact octant moments: a1 is exactly 0 for 90 / 270 degrees, b1 exactly 0 for 0 / 180 (not 6e-17)
+        r_ = math.sqrt(0.5)
+        cosd, sind = [1.0, r_, 0.0, -r_, -1.0, -r_, 0.0, r_], [0.0, r_, 1.0, r_, 0.0, -r_, -1.0, -r_]
+        a1 = np.array([[0.9 * cosd[o % 8] for o in octs]] * B)
+        b1 = np.array([[0.9 * sind[o % 8] for o in octs]] * B)
         z = np.zeros_like(a1)
         try:
             s = create_1d_spectrum(f, E, np.arange(B) * 3600, np.zeros(B), np.zeros(B), a1=a1, b1=b1, a2=z, b2=z, depth=np.full(B, np.inf))
@@ -94,8 +97,14 @@ def run(tier):
             rows.append(Ek)
         Eb = np.stack(rows)
         cl, th, E = cls[0], ths[0], np.nan_to_num(rows[0])
-        a1 = np.array([np.full(nf, 0.8 * math.cos(math.radians(t))) for t in ths])
-        b1 = np.array([np.full(nf, 0.8 * math.sin(math.radians(t))) for t in ths])
+        if j % 3 == 0:
+            ths[0] = float(rng.choice([0, 90, 180, 270]))        # winds along the axes: a1 or b1 exactly zero
+
+        def cs(t):
+            exact = {0.0: (1.0, 0.0), 90.0: (0.0, 1.0), 180.0: (-1.0, 0.0), 270.0: (0.0, -1.0)}
+            return exact.get(t, (math.cos(math.radians(t)), math.sin(math.radians(t))))
+        a1 = np.array([np.full(nf, 0.8 * cs(t)[0]) for t in ths])
+        b1 = np.array([np.full(nf, 0.8 * cs(t)[1]) for t in ths])
         zz = np.zeros((B, nf))
         s = create_1d_spectrum(f, Eb, np.arange(B) * 3600, np.zeros(B), np.zeros(B), a1=a1, b1=b1, a2=zz, b2=zz, depth=np.full(B, np.inf))
         Ipar, bpar, kpar, apar = rng.uniform(2.0, 3.0), rng.uniform(0.008, 0.016), rng.choice([0.4, 0.41]), rng.uniform(0.008, 0.03)
@@ -119,7 +128,7 @@ def run(tier):
                 gu, g10, gd, gc = (float(out["friction_velocity"].values[k]), float(out["u10"].values[k]), float(out["direction"].values[k]),
                                    float(outc["direction"].values[k]))
                 ok = abs(gu - ust) <= 1e-9 * ust and abs(g10 - u10) <= 1e-9 * u10 and abs((gd - th + 180) % 360 - 180) <= 1e-8 and \
-                    abs((gc - (270 - th) + 180) % 360 - 180) <= 1e-8
+                    abs((gc - (270 - th) + 180) % 360 - 180) <= 1e-8 and 0.0 <= gd < 360.0 and 0.0 <= gc < 360.0
                 if not (ok and 0 <= gd < 360 and 0 <= gc < 360):
                     chk.violation("tail:%s" % method, "f^-4 tail of level c: friction velocity / U10 / direction differ from the closed form (%s method)" % method,
                                   dict(ctx, member=k, got=[gu, g10, gd, gc], expected=[ust, u10, th, (270 - th) % 360]))
